@@ -9,6 +9,7 @@ import (
 	"go/ast"
 	"go/token"
 	"go/types"
+	"os"
 	"sort"
 	"strings"
 	"time"
@@ -47,7 +48,49 @@ func effExtras(obs []EffOb) []ExtraResult {
 	return out
 }
 
+func labelHeights(tier string) []int {
+	hs := []int{4, 6, 8, 10, 12, 14, 16, 18, 20}
+	if tier == "thorough" {
+		hs = append(hs, 22, 24)
+		if os.Getenv("VERIF_FULL") == "1" {
+			hs = append(hs, 26, 28, 30)
+		}
+	}
+	return hs
+}
+
 func init() {
+	propConfigs["C01"] = &propConfig{
+		level:   "other",
+		explain: "Deductive part (all inputs, no bound): contracts on the real signing path (xmssFastSignMessage, wotsSign, expandSeed, getSeed, genChain, hashF, prf, coreHash, hMsg, (*XMSS).Sign/SetIndex) and on the verification path (xmssVerifySig, wotsPKFromSig, lTree, validateAuthPath, CalcBaseW): memory safety for every length, signature layout length 2180+32h with the index field equal to the consumed index, index automaton (C02), frames. Bounded part (labelled bounded, never counted as discharged): (1) the BDS traversal invariant 'the stored authentication path of leaf i is Node(j,(i>>j) xor 1) and the root is Node(h,0)' is evaluated on the REAL traversal code for EVERY index of every listed height with node labels in place of digests (only hashH and genLeafWOTS bodies are spliced, mechanically, on each run); (2) with the real hash functions every signature at every index of the small heights verifies. Not yet under functional contract: WOTS chain lemma, checksum digits, L-tree and Merkle-fold specifications (DESIGN.md section 4 C01 links 2-5).",
+		extras: func(e *Engine, tier string, seed int) []ExtraResult {
+			out := e.labelRun(labelHeights(tier))
+			hs := []int{4}
+			if tier == "thorough" {
+				hs = []int{4, 6}
+			}
+			return append(out, e.diffRun(hs, seed)...)
+		},
+		trusted: []string{
+			"BDS traversal correctness is NOT proved for symbolic height: bounded exhaustive evaluation over all indices of the listed heights (quick: even h 4..20; thorough: ..24; VERIF_FULL=1: ..30); heights not run are not covered",
+			"seed/hash independence of the traversal's control flow (node bytes never reach a branch or an index) is argued from the code structure, it is not a discharged obligation",
+		},
+	}
+	propConfigs["C08"] = &propConfig{
+		level:   "other",
+		explain: "Deductive part: (i) bdsRound, bdsTreeHashUpdate, treeHashSetup and initializeTree carry `pure` contracts (result and final state are a function of the arguments; bdsRound/bdsTreeHashUpdate depend on the address argument only through addr[0:3]) discharged by the effects back end on go/ssa, with assigns clauses confining their writes to the traversal state; (ii) lemma function verifLemmaUpdateToCurrentIsIdentity: a jump to the current index changes neither sk nor any traversal buffer; (iii) the index/seed part of the state (sk) evolves identically on the signing and the fast-forward path (C02 contracts). The product-program lemma 'one Sign step == one fast-forward step on the whole traversal state' (verifLemmaSignStepEqualsUpdateStep) is written and well-formed but the solvers do not decide it within the limits; it is NOT claimed. Bounded stand-in for it (labelled bounded): with the real hash functions, for every index of the listed small heights and all three hash functions, the complete state (sk, stack, levels, auth, keep, retain, every treehash instance) reached by signing equals the state reached by one jump and by two jumps on a fresh key, and the next signatures are byte-identical.",
+		extras: func(e *Engine, tier string, seed int) []ExtraResult {
+			hs := []int{4}
+			if tier == "thorough" {
+				hs = []int{4, 6}
+			}
+			return e.diffRun(hs, seed)
+		},
+		trusted: []string{
+			"path independence of the traversal state is decided only by a bounded differential run (heights 4 (quick) / 4,6 (thorough), one VERIF_SEED-derived seed, 3 hash functions); the deductive step lemma is not discharged",
+			"loop splitting (fast-forward a->b then b->c equals a->c) is the meaning of the for-loop in xmssFastUpdate and is not mechanised",
+		},
+	}
 	propConfigs["C15"] = &propConfig{
 		level: "proof",
 		extras: func(e *Engine, tier string, seed int) []ExtraResult {
